@@ -519,7 +519,7 @@ class FaultPlan:
 
     def __init__(self, kill_after_sent=None, kill_after_recv=None, kind='eof', at_time=None,
                  send_modes=(('full', 6), ('partial', 3), ('eagain', 1)),
-                 recv_chunking=True, connect_error=None):
+                 recv_chunking=True, connect_error=None, timeout_advances=True):
         self.kill_after_sent = kill_after_sent
         self.kill_after_recv = kill_after_recv
         self.kind = kind
@@ -527,6 +527,7 @@ class FaultPlan:
         self.send_modes = [m for m, w in send_modes for _ in range(w)]
         self.recv_chunking = recv_chunking
         self.connect_error = connect_error
+        self.timeout_advances = timeout_advances   # does a send() time-out consume the socket time-out in virtual time
 
 
 class VSocket:
@@ -601,7 +602,7 @@ class VSocket:
             raise OSError(errno.EAGAIN, 'Resource temporarily unavailable')
         if mode == 'timeout':
             s.ev('send_timeout', None)
-            if self.timeout:
+            if self.timeout and plan.timeout_advances:
                 s.now += int(self.timeout * 1000)
             raise real_socket.timeout('timed out')
         k = n if mode == 'full' or n == 1 else s.chooser.pick_int(1, n, 'send-len')
